@@ -20,6 +20,18 @@ for tc in ET.parse(out).getroot().iter("testcase"):
         passed.add(tc.get("classname") + "::" + tc.get("name"))
 os.unlink(out)
 missing = sorted(stable - passed)
+if 0 < len(missing) <= 5:
+    # a handful of tests fail under heavy machine load only (Monte-Carlo tolerances, time-outs): each is re-run ONCE on its own;
+    # a test that fails again stays missing
+    for mid in list(missing):
+        cls, name = mid.split("::")
+        mod, klass = cls.rsplit(".", 1)
+        nodeid = mod.replace(".", "/") + ".py::" + klass + "::" + name
+        r = subprocess.run(["/venv/bin/python", "-m", "pytest", "-q", "-p", "no:cacheprovider", "--timeout=900", nodeid], cwd=repo, env=env, stdout=subprocess.DEVNULL, stderr=subprocess.DEVNULL)
+        if r.returncode == 0:
+            passed.add(mid)
+            print("  (passed when re-run alone:", mid + ")")
+    missing = sorted(stable - passed)
 print(f"stable_pass={len(stable)} passed_now={len(passed)} missing={len(missing)}")
 for m in missing[:40]:
     print("  MISSING", m)
